@@ -216,6 +216,106 @@ fn xhash_maps(rng: &mut Rng) -> Result<(), String> {
     Ok(())
 }
 
+thread_local! {
+    /// Clone calls left before `PK::clone` panics (u64::MAX = never).
+    static CLONE_FUSE: std::cell::Cell<u64> = std::cell::Cell::new(u64::MAX);
+}
+#[derive(PartialEq, Eq, Hash, Debug, PartialOrd, Ord)]
+struct PK(u64);
+impl Clone for PK {
+    fn clone(&self) -> Self {
+        let left = CLONE_FUSE.with(|c| c.get());
+        if left == 0 {
+            CLONE_FUSE.with(|c| c.set(u64::MAX));
+            panic!("clone fuse");
+        }
+        if left != u64::MAX {
+            CLONE_FUSE.with(|c| c.set(left - 1));
+        }
+        PK(self.0)
+    }
+}
+
+/// A map / set is internally consistent: every element it yields is found again, len = number yielded,
+/// a fresh clone compares equal, and it keeps working.
+fn map_consistent(m: &HashMap<PK, u64, Seeded>, what: &str) -> Result<(), String> {
+    let keys: Vec<u64> = m.keys().map(|k| k.0).collect();
+    if keys.len() != m.len() {
+        return Err(format!("{}: len {} but iteration yields {}", what, m.len(), keys.len()));
+    }
+    for k in &keys {
+        if !m.contains_key(&PK(*k)) {
+            return Err(format!("{}: stored key {} is not found by a look-up", what, k));
+        }
+    }
+    let c = m.clone();
+    if c != *m || *m != c {
+        return Err(format!("{}: a clone does not compare equal", what));
+    }
+    Ok(())
+}
+
+/// clone_from between differently seeded hashers with a `Clone` that panics part-way (any size relation).
+fn xhash_clone_panic(rng: &mut Rng) -> Result<(), String> {
+    let universe = 64u64;
+    let mut build = |rng: &mut Rng, seed: u64, n: u64| -> HashMap<PK, u64, Seeded> {
+        let mut m = HashMap::with_hasher(Seeded(seed));
+        for _ in 0..n {
+            let k = rng.below(universe);
+            m.insert(PK(k), k);
+        }
+        m
+    };
+    let (s1, s2) = (rng.next(), rng.next());
+    let na = *rng.pick(&[0u64, 3, 10, 40, 120]);
+    let nb = *rng.pick(&[1u64, 3, 10, 40, 120]);
+    let mut a = build(rng, s1, na);
+    let b = build(rng, s2, nb);
+    if rng.chance(1, 3) {
+        let ks: Vec<u64> = a.keys().map(|k| k.0).collect();
+        for k in ks.iter().take(ks.len() / 2) {
+            a.remove(&PK(*k));
+        }
+    }
+    let fuse = rng.below(b.len() as u64 + 1);
+    CLONE_FUSE.with(|c| c.set(fuse));
+    let r = std::panic::catch_unwind(std::panic::AssertUnwindSafe(|| a.clone_from(&b)));
+    CLONE_FUSE.with(|c| c.set(u64::MAX));
+    match r {
+        Ok(()) => {
+            if a != b || a.len() != b.len() {
+                return Err("clone_from returned but the target differs from the source".into());
+            }
+        }
+        Err(_) => {}
+    }
+    map_consistent(&a, "target after clone_from (Clone may have panicked)")?;
+    for k in 0..universe {
+        a.insert(PK(k), 1);
+    }
+    if a.len() != universe as usize {
+        return Err("target unusable after clone_from".into());
+    }
+    map_consistent(&a, "target after refilling")?;
+    // the same for sets
+    let mut sa: HashSet<PK, Seeded> = HashSet::with_hasher(Seeded(s1));
+    let mut sb: HashSet<PK, Seeded> = HashSet::with_hasher(Seeded(s2));
+    for _ in 0..na {
+        sa.insert(PK(rng.below(universe)));
+    }
+    for _ in 0..nb {
+        sb.insert(PK(rng.below(universe)));
+    }
+    CLONE_FUSE.with(|c| c.set(rng.below(sb.len() as u64 + 1)));
+    let _ = std::panic::catch_unwind(std::panic::AssertUnwindSafe(|| sa.clone_from(&sb)));
+    CLONE_FUSE.with(|c| c.set(u64::MAX));
+    let ks: Vec<u64> = sa.iter().map(|k| k.0).collect();
+    if ks.len() != sa.len() || ks.iter().any(|k| !sa.contains(&PK(*k))) {
+        return Err("set after clone_from (Clone may have panicked): a stored element is not found / len wrong".into());
+    }
+    Ok(())
+}
+
 fn zst_one(rng: &mut Rng) -> Result<(), String> {
     let cap = *rng.pick(&[0usize, 1, 3, 4, 7, 8, 14, 15, 28, 29, 56, 100, 500, 1000]);
     let seed = rng.next();
@@ -467,6 +567,22 @@ fn misc(rng: &mut Rng) -> Result<(), String> {
     if s3.len() != 3 || !s3.contains(&4) || !s3.contains(&2) || !s3.contains(&9) {
         return Err("HashSet::from([..]) disagrees with inserting the elements".into());
     }
+    // get_many_mut with unsized key forms that start at the same address (prefixes of one buffer)
+    let buf = "abcdefgh";
+    let mut sm: HashMap<String, u64> = HashMap::new();
+    for l in [1usize, 2, 3, 5, 8] {
+        sm.insert(buf[..l].to_string(), l as u64);
+    }
+    let got = sm.get_many_mut([&buf[..2], &buf[..5], &buf[..4], &buf[..1]]);
+    let lens: Vec<Option<u64>> = got.iter().map(|o| o.as_ref().map(|v| **v)).collect();
+    if lens != vec![Some(2), Some(5), None, Some(1)] {
+        return Err(format!("get_many_mut over prefixes of one buffer returned {:?}", lens));
+    }
+    let got = sm.get_many_key_value_mut([&buf[..8], &buf[..3], &buf[..7]]);
+    let kv: Vec<Option<(String, u64)>> = got.iter().map(|o| o.as_ref().map(|(k, v)| ((*k).clone(), **v))).collect();
+    if kv != vec![Some(("abcdefgh".to_string(), 8)), Some(("abc".to_string(), 3)), None] {
+        return Err(format!("get_many_key_value_mut over prefixes of one buffer returned {:?}", kv));
+    }
     // IntoIterator for references and for &mut
     let mut mm = fm.clone();
     let mut sum = 0;
@@ -485,7 +601,7 @@ pub fn run(seed: u64, count: usize, prefix: &str) {
     let mut ops = std::io::BufWriter::new(std::fs::File::create(format!("{}.ops", prefix)).unwrap());
     let mut real = std::io::BufWriter::new(std::fs::File::create(format!("{}.real", prefix)).unwrap());
     for i in 0..count {
-        for (kind, tag) in [("xhash-sets", "XHASH"), ("xhash-maps", "XHASH"), ("zst", "ZST"), ("misc", "MISC")] {
+        for (kind, tag) in [("xhash-sets", "XHASH"), ("xhash-maps", "XHASH"), ("zst", "ZST"), ("misc", "MISC"), ("xhash-clone-panic", "XHASH")] {
             let mut rng = Rng::new(crate::tape::mix3(seed, i as u64, kind.len() as u64));
             let id = format!("scn extras-{}-{}-{}", kind, seed, i);
             writeln!(ops, "{}", id).unwrap();
@@ -493,6 +609,7 @@ pub fn run(seed: u64, count: usize, prefix: &str) {
                 "xhash-sets" => xhash_sets(&mut rng),
                 "xhash-maps" => xhash_maps(&mut rng),
                 "misc" => misc(&mut rng),
+                "xhash-clone-panic" => xhash_clone_panic(&mut rng),
                 _ => zst_one(&mut rng),
             }));
             let verdict = match r {
